@@ -61,10 +61,10 @@ P['C20'] = dict(
     tech=TECH + 'frame/effects obligations decided structurally over the AST', ref='5 C20')
 
 BND = ' A bounded stand-in (native oracle = executable transcription of the property statement, on an enumerated domain) runs beside the proof and is reported separately; it is never counted as proved.'
-P['C02'] = dict(text='Proof: lexer loop invariant (C01); group_tokens preserves the text of the node for every list, slice and class, in both branches (ghost text with concatenation laws, no quantifiers); TokenList.__init__ caches the text of its children; the 25 grouping passes write the tree only through group_tokens (frame obligations over the AST); splitter hand-over obligations (every token joins exactly one statement; the yielded list is not written afterwards); _group_matching (six classes), the nine simple passes, and the infix joiner _group (verified once under a generic closure contract, each of its ten instantiating passes checked to satisfy that contract) call group_tokens only within its preconditions.' + BND,
+P['C02'] = dict(text='Proof: lexer loop invariant (C01); group_tokens preserves the text of the node for every list, slice and class, in both branches (ghost text with concatenation laws, no quantifiers); TokenList.__init__ caches the text of its children; the 25 grouping passes write the tree only through group_tokens (frame obligations over the AST); splitter hand-over obligations over the real loop body of process (every token joins exactly one statement, also when a statement is empty; the yielded list is not written afterwards); _group_matching (six classes), the nine simple passes, and the infix joiner _group (verified once under a generic closure contract, each of its ten instantiating passes checked to satisfy that contract) call group_tokens only within its preconditions.' + BND,
     note='Trusted: re match contract; ownership-based local invariants (a node has one parent) as the methodology that lifts the per-node text invariant to all ancestors; pyvc; z3. flatten/__str__ by shape obligations.', tech=TECH + 'ghost-text heap model with generator-instantiated lemmas', ref='5 C02')
-P['C03'] = dict(text='Proof of the tree invariant for the functions that establish and maintain it: Token.__init__ (leaf flags, normalized), TokenList.__init__ (same list object, children re-parented, cached value), group_tokens new-group and extend branches (Inv I1-I6 for the new/extended group and for self, element identity, length bookkeeping); navigation helpers _token_matching forward/reverse (first match via interval summaries), token_next / token_prev (through the call-site contract with the real closure), token_index; _group_matching for all six bracket/block classes (loop invariant over the stack of open positions: sorted, below the cursor, elements still at their positions) the nine simple passes (every group_tokens call satisfies 0 <= start <= end < len); the infix joiner _group for any class and any closures satisfying a stated closure contract (loop invariant: current list = processed prefix ++ unvisited rest of the snapshot, previous-neighbour index bounded, absorbed tokens skipped) and its ten instantiating passes, whose real closures are run symbolically at the call site and checked against that contract; frame and identity side conditions.' + BND,
-    note='Not under contract (bounded only): WHICH tokens the joiner passes group (their predicates are only proved total and effect-free), get_token_at_offset, within/has_ancestor/is_child_of. Trusted: methodology of local invariants, pyvc, z3.', tech=TECH + 'segment-list heap model, lazily materialised elements, interval summaries', ref='5 C03')
+P['C03'] = dict(text='Proof of the tree invariant for the functions that establish and maintain it: Token.__init__ (leaf flags, normalized), TokenList.__init__ (same list object, children re-parented, cached value), group_tokens new-group and extend branches (Inv I1-I6 for the new/extended group and for self, element identity, length bookkeeping); navigation helpers _token_matching forward/reverse (first match via interval summaries), token_next / token_prev (through the call-site contract with the real closure), token_index, get_token_at_offset (the leaf whose character span contains the offset, None outside); _group_matching for all six bracket/block classes (loop invariant over the stack of open positions: sorted, below the cursor, elements still at their positions) the nine simple passes (every group_tokens call satisfies 0 <= start <= end < len); the infix joiner _group for any class and any closures satisfying a stated closure contract (loop invariant: current list = processed prefix ++ unvisited rest of the snapshot, previous-neighbour index bounded, absorbed tokens skipped) and its ten instantiating passes, whose real closures are run symbolically at the call site and checked against that contract; frame and identity side conditions.' + BND,
+    note='Not under contract (bounded only): WHICH tokens the joiner passes group (their predicates are only proved total and effect-free), within/has_ancestor/is_child_of; flatten() enters get_token_at_offset as a sequence model (its relation to the tree: shape obligation + I4). Trusted: methodology of local invariants, pyvc, z3.', tech=TECH + 'segment-list heap model, lazily materialised elements, interval summaries', ref='5 C03')
 P['C04'] = dict(text='Proof: split and parse consume the same lexer+splitter pass (shape obligations on split, FilterStack.__init__, run), statements keep their text under grouping (C02 obligations), splitter boundary obligations, StripTrailingSemicolonFilter removes only trailing whitespace and semicolons (per-site obligation); the lexer types every str.isspace character as Whitespace (exhaustive over the 29 characters), so the splitter\'s and str.strip\'s notions of blank agree.' + BND,
     note='Re-splitting a piece (lexing out of context) and the strip/partition arithmetic are bounded only. Trusted: re, str.strip.', tech=TECH + 'shape obligations + bounded stand-in', ref='5 C04')
 P['C06'] = dict(text='Proof of the tree-level clause by per-site SMT obligations over the heap model: on every path of the listed layout routines (strip-whitespace family, spaces-around-operators, reindent split/where/parenthesis/values/process, aligned split/parenthesis) every removed element is whitespace, every value store blanks a whitespace token, every inserted element is a fresh whitespace token, and no other token field is written; option validation proved for every option value; filter order and serializer by shape obligations.' + BND,
@@ -73,15 +73,15 @@ P['C07'] = dict(text='Proof of `raises subset {SQLParseError}` for validate_opti
     note='The remaining accessors and the other tree filters: bounded stand-in (exhaustive 2-fragment soups + random soups x option sets, accessor walk, invalid option values).', tech=TECH + 'exceptional postconditions per function', ref='5 C07')
 P['C08'] = dict(text='Proof: KeywordCaseFilter, IdentifierCaseFilter, TruncateStringFilter are per-token maps (one output per input, same type, value changed only for the target types, truncation formula) for every stream; StripCommentsFilter per-site obligations (thorough tier): only non-hint comments are removed, only fresh whitespace inserted; its closure _get_insert_token returns a whitespace leaf allocated by the call (both tiers).' + BND,
     note='"No two tokens fused or split", idempotence: re-lexing, bounded only. Trusted: str case maps (uninterpreted total), re.', tech=TECH + 'generator contracts with ghost counters', ref='5 C08')
-P['C09'] = dict(text='Proof: group_tokens(cls, i, j) creates ONE group owning exactly tokens[i..j] (first child = tokens[i], last = tokens[j]); _group_matching for the six classes against a loop invariant over the stack of open positions (every pop groups [open, close] with open < close, the closer is the current token, the stack stays sorted and below the cursor, groups of other classes are recursed into, enclosing delimiters are skipped); order of the six matching passes and their delimiter tables (data obligations); grouping passes write the tree only through group_tokens.' + BND + ' That the result equals the textbook matcher on the whole token stream (composition over nesting and passes) is decided by the bounded stand-in (independent stack matcher vs parsed tree).',
-    note='The later infix passes: _group is proved to group index ranges of the current child list only (whole children, never parts of a bracket group) and to recurse into every group child of another class; that it never takes the enclosing delimiters is the guard in its body plus the bounded stand-in.', tech=TECH + 'loop invariants over an integer-stack summary; bounded stand-in for the end-to-end equality', ref='5 C09')
+P['C09'] = dict(text='Proof: group_tokens(cls, i, j) creates ONE group owning exactly tokens[i..j] (first child = tokens[i], last = tokens[j]); _group_matching for the six classes against a loop invariant over the stack of open positions (every pop groups [open, close] with open < close, the closer is the current token and matches M_CLOSE, only tokens matching M_OPEN are pushed, the stack stays sorted and below the cursor, groups of other classes are recursed into, enclosing delimiters are skipped); order of the six matching passes and their delimiter tables (data obligations); grouping passes write the tree only through group_tokens.' + BND + ' That the result equals the textbook matcher on the whole token stream (composition over nesting and passes) is decided by the bounded stand-in (independent stack matcher vs parsed tree).',
+    note='The later infix passes: _group is proved to group index ranges of the current child list only (whole children, never parts of a bracket group), never a range containing a delimiter of the enclosing group (the any(...) guard read as an interval summary), and to recurse into every group child of another class. _is_delimiter itself is a call-site model (pure predicate); the end-to-end equality with the stack matcher is bounded.', tech=TECH + 'loop invariants over an integer-stack summary; bounded stand-in for the end-to-end equality', ref='5 C09')
 P['C10'] = dict(text='Proof of per-site obligations for the whitespace-normalising routines (what they may touch) and shape obligations for nl(), the split-word list, BETWEEN..AND skipping; StripWhitespaceFilter.process (trailing-token removal, total on empty statements); the serializer joins pieces right-stripped of every str.isspace character (element obligation of the real generator expression); option validation.' + BND + ' The normal forms of the whole output and the fixed points need re-lexing and adjacency across groups: bounded.',
     note='Per-function normal-form postconditions are not yet discharged by SMT.', tech=TECH + 'per-site obligations + bounded normal-form oracles', ref='5 C10')
-P['C11'] = dict(text='Proof per inspection site: Token.__init__ computes normalized = upper-cased, whitespace-collapsed value for keywords; the splitter transition ignores the value of non-keyword tokens and, by a two-run (relational) contract, gives the same result and state for any two spellings of a keyword with the same upper-cased whitespace-collapsed form; neighbour search skips whitespace (first-match contracts); every multi-word lexer rule separates words by \\s+ (structural); no comparison of raw token text with a keyword constant (AST scan); matching constants are canonical.' + BND,
+P['C11'] = dict(text='Proof per inspection site: Token.__init__ computes normalized = upper-cased, whitespace-collapsed value for keywords; the splitter transition ignores the value of non-keyword tokens and, by a two-run (relational) contract, gives the same result and state for any two spellings of a keyword with the same upper-cased whitespace-collapsed form; neighbour search skips whitespace (first-match contracts); the joiner _group never remembers a whitespace token of any kind as the neighbour of an infix token (loop invariant); every multi-word lexer rule separates words by \\s+ (structural); no comparison of raw token text with a keyword constant (AST scan); matching constants are canonical.' + BND,
     note='Same tree shape for respelled scripts end-to-end: bounded stand-in.', tech=TECH + 'site obligations + structural regex facts', ref='5 C11')
 P['C12'] = dict(text='Proof: remove_quotes removes exactly one surrounding pair (against its specification function); get_parent_name returns the unquoted value of the nearest non-whitespace child before the first dot, None without one; neighbour-search helpers; shape obligations for the other accessors.' + BND + ' (65k cases quick, full product thorough).',
     note='get_real_name, get_alias, get_name, has_alias over the Identifier shapes and the grouping that builds those shapes are not under SMT contracts: bounded.', tech=TECH + 'string VCs + bounded stand-in', ref='5 C12')
-P['C13'] = dict(text='Proof: first-match search for the clause-closing keyword, group_tokens span, group_where / group_functions / group_order call sites and the joiner _group with its passes for IdentifierList, Comparison, TypedLiteral, Operation (indices within the list, recursion into nested groups), data obligations on Where.M_CLOSE and friends, shape obligations on get_identifiers / Comparison.left,right.' + BND,
+P['C13'] = dict(text='Proof: first-match search for the clause-closing keyword, group_tokens span, group_where / group_functions / group_order call sites, coverage of group_where (no ungrouped WHERE keyword is left behind the cursor: every WHERE becomes a node) and the joiner _group with its passes for IdentifierList, Comparison, TypedLiteral, Operation (indices within the list, recursion into nested groups), data obligations on Where.M_CLOSE and friends, shape obligations on get_identifiers / Comparison.left,right.' + BND,
     note='The extent of Where (which index group_where computes), which neighbours the joiner passes accept, get_parameters, get_cases: bounded.', tech=TECH + 'data obligations + bounded stand-in', ref='5 C13')
 P['C15'] = dict(text='Proof of the exceptional-postcondition obligations: FilterStack.run is one try whose RecursionError handler raises SQLParseError and every pipeline call is inside it; the entry points make no tree-recursive call outside the consumption of run() (split: statements are flat because grouping is never enabled); no shared state is written (frame obligations).' + BND,
     note='Assumed: CPython raises RecursionError rather than overflowing the C stack.', tech=TECH + 'structural obligations over the AST and call graph', ref='5 C15')
